@@ -5,7 +5,7 @@
    [eval] follows the Go control flow of every helper; the statements below say what it computes. *)
 From Coq Require Import List NArith ZArith Bool Arith.
 From RareV Require Import Gen.GenC17 Base.Hex Base.Num Model.Splitter Model.ArrayFns
-  Proofs.SplitterProof Proofs.ArrayFnsOps Proofs.ArrayFnsLoops Proofs.ArrayFnsProof.
+  Proofs.SplitterProof Proofs.ArrayFnsOps Proofs.ArrayFnsLoops Proofs.ArrayFnsProof Proofs.ArrayFnsWf.
 Import ListNotations.
 
 (* ---- the splitter: first-occurrence splitting, any non-empty delimiter of any length ---- *)
@@ -151,6 +151,55 @@ Theorem C17_concat : forall c b es, es <> [] ->
   split0 (eval (Arr b es) c) = flat_map (fun e => split0 (eval e c)) es.
 Proof. exact T_concat. Qed.
 Print Assumptions C17_concat.
+
+(* ---- well-formed results: splitting the result on NUL gives exactly the elements of the specified
+        list, i.e. no separator appears that does not delimit an element.  [nul_safe f]: the
+        sub-expression cannot produce a NUL itself (literals without NUL, {i}, {key}, concatenation,
+        eq/not/if/prefix/len/sumi, @len/@in/@select); [keys_nf c]: the named keys hold no NUL.
+        (The encoding cannot distinguish the empty list from [""]: C17_wf_empty.) ---- *)
+Theorem C17_wf_empty : join0 [] = join0 [[]] /\ split0 [] = [[]].
+Proof. exact W_empty_encoding. Qed.
+Theorem C17_wf_split : forall c a d, d <> [] -> nul_free (eval a c) ->
+  split0 (eval (ASplit a d) c) = split d (eval a c).
+Proof. exact W_split. Qed.
+Print Assumptions C17_wf_split.
+Theorem C17_wf_map : forall c a f, nul_safe f = true -> keys_nf c ->
+  split0 (eval (AMap a f) c) = map (fun x => eval f (subctx c x [])) (split0 (eval a c)).
+Proof. exact W_map. Qed.
+Print Assumptions C17_wf_map.
+Theorem C17_wf_filter : forall c a f,
+  let r := filter (fun x => truthy (eval f (subctx c x []))) (split0 (eval a c)) in
+  r <> [] -> split0 (eval (AFilter a f) c) = r.
+Proof. exact W_filter. Qed.
+Print Assumptions C17_wf_filter.
+Theorem C17_wf_slice : forall c a start len,
+  let l := split0 (eval a c) in
+  let r := slice_list l start len in
+  r <> [] -> split0 (eval (ASlice a start len) c) = r.
+Proof. exact W_slice. Qed.
+Print Assumptions C17_wf_slice.
+Theorem C17_wf_range : forall c s e i start stop incr,
+  atoi (eval s c) = Some start -> atoi (eval e c) = Some stop -> atoi (eval i c) = Some incr ->
+  in_range start stop incr = true ->
+  split0 (eval (ARange s e i) c) = map itoa (progression (range_count start stop incr) start incr).
+Proof. exact W_range. Qed.
+Print Assumptions C17_wf_range.
+Theorem C17_wf_for : forall c s x i n, 1 <= n <= iter_cap ->
+  let cond := fun v k => eval x (subctx c v k) in
+  let incr := fun v k => eval i (subctx c v k) in
+  (forall k, k < n -> for_cond cond incr (eval s c) dec_zero k = true) ->
+  for_cond cond incr (eval s c) dec_zero n = false ->
+  nul_free (eval s c) -> nul_safe i = true -> keys_nf c ->
+  split0 (eval (AFor s x i) c) = map (for_val incr (eval s c) dec_zero) (seq 0 n).
+Proof. exact W_for. Qed.
+Print Assumptions C17_wf_for.
+Theorem C17_nul_safe : forall e c, nul_safe e = true -> ctx_nf c -> nul_free (eval e c).
+Proof. exact nul_safe_free. Qed.
+Print Assumptions C17_nul_safe.
+(* the index string {1} of @for is the decimal representation of the round (checked for 0..1999) *)
+Theorem C17_for_index_decimal :
+  forallb (fun n => bytes_eqb (dec_str (Nat.iter n dec_succ dec_zero)) (itoa (Z.of_nat n))) (seq 0 2000) = true.
+Proof. exact dec_is_itoa_2000. Qed.
 
 (* ---- the whole evaluator (every nesting of the above) equals the list specification, and the boolean
         form used on the implementation's outputs accepts exactly that ---- *)
